@@ -6,7 +6,7 @@
  "mode": "harness",
  "replace_calls": {"initadd": "rec_initadd"},
  "variants": {"complete": ["-DV_INCOMPLETE=0"], "unknown": ["-DV_INCOMPLETE=1"]},
- "unwind": 6,
+ "unwind": 9, "unwindset": ["parseinit.0:3", "parseinit.1:2", "parseinit.2:3", "parseinit.3:6", "advance.0:2", "designator.0:3"],
  "kind": "bounded",
  "bound": "int a[3] / int a[]; initializer `{ item , item , item ,? }` with 0..3 items, each `e` or `[d] = e` with d in 0..5, optional trailing comma",
  "timeout": 300, "replay": false,
@@ -31,20 +31,21 @@
  * initializer. The array type is completed at the end of its initializer list."  C23 6.7.10p? : an array of unknown size shall
  * not be initialized by an empty initializer.
  */
-void
-harness(void)
+u64 nondet_u64(void);
+
+/* one initializer of a fixed token STRUCTURE (in_n, in_comma, which items are designated: compile-time constants at every call)
+   with symbolic designator values and expression ids */
+static void
+scenario(unsigned in_n, bool in_comma, bool in_des0, bool in_des1, bool in_des2)
 {
 	static struct type t_arr;
-	IN(unsigned, in_n); IN(bool, in_comma);
-	IN(bool, in_des0); IN(bool, in_des1); IN(bool, in_des2);
-	IN(u64, in_d0); IN(u64, in_d1); IN(u64, in_d2); IN(u64, in_id);
+	u64 in_d0 = nondet_u64(), in_d1 = nondet_u64(), in_d2 = nondet_u64(), in_id = nondet_u64();
 	bool des[3]; u64 d[3], idx[3], maxidx;
 	unsigned i;
 	bool inrange, wellformed;
 	struct init *ret;
 
-	__CPROVER_assume(in_n <= 3 && in_d0 <= 5 && in_d1 <= 5 && in_d2 <= 5 && in_id < 1000);
-	__CPROVER_assume(in_n > 0 || !in_comma);           /* `{,}` is not in the family */
+	__CPROVER_assume(in_d0 <= 5 && in_d1 <= 5 && in_d2 <= 5 && in_id < 1000);
 	des[0] = in_des0; des[1] = in_des1; des[2] = in_des2; d[0] = in_d0; d[1] = in_d1; d[2] = in_d2;
 	exprs_init(&t_char, 4, &t_int);
 	mkarr(&t_arr, &t_int, NEL, V_INCOMPLETE);
@@ -90,6 +91,20 @@ harness(void)
 	__CPROVER_assert(t_arr.base == &t_int && t_int.size == 4, "element type untouched");
 	__CPROVER_assert((in_n == 0) == (ret == 0), "the returned list is empty iff there was no initializer");
 #ifdef VERIF_CANARY
-	__CPROVER_assert(!(in_n == 3 && in_des1 && in_d1 == 0 && in_comma), "CANARY");
+	__CPROVER_assert(!(in_n == 3 && in_des1 && !in_des2 && in_d1 == 0 && in_comma), "CANARY");
 #endif
+}
+
+void
+harness(void)
+{
+	unsigned n, m, c;
+
+	/* every structure of the family: (n, designated-mask, trailing comma); `{,}` is not in the family */
+	scenario(0, false, false, false, false);
+	for (n = 1; n <= 3; n++)
+		for (m = 0; m < 8; m++)
+			for (c = 0; c < 2; c++)
+				if (m < (1u << n))
+					scenario(n, c, m & 1, m & 2, m & 4);
 }
